@@ -5,10 +5,13 @@ then deletes env B (the current one).  The environment falls back to the default
 environment's "work" profile is active although it was never selected while that environment was current.
 """
 import os, sys, tempfile, types
+sys.dont_write_bytecode = True
 d = tempfile.mkdtemp()
 os.environ["LLAMACTL_CONFIG_DIR"] = d
-sys.path.insert(0, "/repo/packages/llamactl/src")
-sys.path.insert(0, "/repo/packages/llama-agents-core/src")
+# bare namespace packages: skip llama_agents/cli/__init__.py (imports click commands, dulwich, ...)
+S = "/repo/packages/llamactl/src/llama_agents"
+for name, path in (("llama_agents", S), ("llama_agents.cli", S + "/cli"), ("llama_agents.cli.config", S + "/cli/config")):
+    m = types.ModuleType(name); m.__path__ = [path]; sys.modules[name] = m
 from llama_agents.cli.config._config import ConfigManager
 from llama_agents.cli.config.schema import DEFAULT_ENVIRONMENT
 
